@@ -85,14 +85,7 @@ func (m SliceDotsMatcher) Match(got reflect.Value, d data.Data, r Region) (data.
 		return d, false
 	}
 
-	for i, section := range m.Sections[1:] {
-		idx, d, ok = findSection(m.Dots[i], section, gotItems, d, r, idx)
-		if !ok {
-			return d, false
-		}
-	}
-
-	return d, idx == len(gotItems)
+	return matchSections(m.Dots, m.Sections[1:], gotItems, d, r, idx)
 }
 
 // Returns Region for items[start:end].
@@ -128,30 +121,42 @@ func matchPrefix(want []Matcher, got []reflect.Value, d data.Data, r Region, idx
 	return idx + len(want), d, true
 }
 
-// findSection attempts to match want starting at got[idx], moving onto idx+1,
-// idx+2, and so on until a match is found. Returns the new index for the
-// remaining matches.
+// matchSections matches the given sections against got[idx:]. Each section
+// is preceded by the "..." at the corresponding position in dots. For every
+// "...", the shortest run of skipped items that allows the rest of the
+// sections to match is used, and all of got must be consumed.
 //
 // Invariant: If ok is true, a list of skipped items will have been pushed to
-// Data.
-func findSection(dots token.Pos, want []Matcher, got []reflect.Value, d data.Data, r Region, idx int) (newIdx int, _ data.Data, ok bool) {
-	// Special case: Looking for "..." at the end of the list. Skip everything
-	// in got.
-	if len(want) == 0 {
-		r := sectionRegion(got, r, idx, len(got))
-		d := pushSliceDotsSkipped(d, dots, got[idx:], r)
-		return matchPrefix(want, got, d, r, len(got))
+// Data for each "...".
+func matchSections(dots []token.Pos, sections [][]Matcher, got []reflect.Value, d data.Data, r Region, idx int) (_ data.Data, ok bool) {
+	if len(sections) == 0 {
+		return d, idx == len(got)
 	}
 
-	for i := idx; i < len(got); i++ {
-		r := sectionRegion(got, r, idx, i)
-		newIdx, newD, ok := matchPrefix(want, got, pushSliceDotsSkipped(d, dots, got[idx:i], r), r, i)
-		if ok {
-			return newIdx, newD, ok
+	want := sections[0]
+
+	// Special case: Looking for "..." at the end of the list. Skip everything
+	// in got.
+	if len(want) == 0 && len(sections) == 1 {
+		r := sectionRegion(got, r, idx, len(got))
+		return pushSliceDotsSkipped(d, dots[0], got[idx:], r), true
+	}
+
+	for i := idx; i+len(want) <= len(got); i++ {
+		sr := sectionRegion(got, r, idx, i)
+		newIdx, newD, ok := matchPrefix(want, got, pushSliceDotsSkipped(d, dots[0], got[idx:i], sr), sr, i)
+		if !ok {
+			continue
+		}
+
+		// The rest of the sections must match too. Otherwise, try a
+		// longer run for this "...".
+		if newD, ok := matchSections(dots[1:], sections[1:], got, newD, r, newIdx); ok {
+			return newD, true
 		}
 	}
 
-	return idx, d, false
+	return d, false
 }
 
 // SliceDotsReplacer replaces target nodes and reproduces the values captured by
